@@ -19,6 +19,7 @@ def run(ctx):
     scen += charfam.seeded_small(ctx, rng, 60 if quick else 2500)
     scen += charfam.seeded_flag_trees(ctx, rng, 10 if quick else 250)
     scen += charfam.directed_small_trees()
+    scen += charfam.directed_wide(not quick)
     # long recipes whose single-attempt success probability is 1 to within float32: forced paths (first/last index, a failing first
     # attempt, seeded) - "no other string is ever returned" also on streams whose first candidate misses a requirement
     for (a, r, x, L) in ((15, 4, 0, 96), (7, 2, 0, 24), (15, 12, 16, 128), (7, 7, 0, 100), (4, 0, 0, 8), (15, 15, 16, 100)):
